@@ -176,6 +176,32 @@ func runC06(c *Ctx) {
 								continue
 							}
 						}
+						// parked in a field of an object allocated in this function (creds.cert, err = f()): what counts is
+						// where that field is read and where the object leaves the function
+						if st, ok := use.(*ssa.Store); ok && st.Val == ex && !errKnownNil(st.Block(), errVal) {
+							if fa, ok := st.Addr.(*ssa.FieldAddr); ok {
+								if al, ok := fa.X.(*ssa.Alloc); ok {
+									for _, u2 := range nonDebugRefs(al) {
+										switch u2 := u2.(type) {
+										case *ssa.FieldAddr:
+											if u2.Field != fa.Field {
+												continue
+											}
+											for _, u3 := range nonDebugRefs(u2) {
+												if ld, ok := u3.(*ssa.UnOp); ok && !errKnownNil(ld.Block(), errVal) {
+													c.S.Bad("R2", construct+":result used before its error is known nil", c.pos(ld.Pos()), "a result of "+cname+" is used on a path where its error has not been found nil")
+												}
+											}
+										default:
+											if !errKnownNil(u2.Block(), errVal) {
+												c.S.Bad("R2", construct+":result used before its error is known nil", c.pos(u2.Pos()), "the object holding a result of "+cname+" leaves the function on a path where its error has not been found nil")
+											}
+										}
+									}
+									continue
+								}
+							}
+						}
 						if !errKnownNil(use.Block(), errVal) {
 							c.S.Bad("R2", construct+":result used before its error is known nil", c.pos(use.Pos()), "a result of "+cname+" is used on a path where its error has not been found nil")
 						}
@@ -907,41 +933,49 @@ func runC06(c *Ctx) {
 	}
 
 	// ---- R6 ----
-	var marshals []*ssa.Call
-	for _, call := range callsIn(sd, func(call ssa.CallInstruction) bool {
-		return calleeIs(call, "google.golang.org/protobuf/proto.Marshal") && typeMentions(call.Common().Args[0], epbPkg, "VMGoldenMeasurement")
-	}) {
-		marshals = append(marshals, call.(*ssa.Call))
-	}
-	c.S.Check(len(marshals) == 1, "R6", "endorse.SignDoc:single marshal", c.pos(sd.Pos()), "the document is marshalled exactly once", fmt.Sprintf("%d marshals of the document in SignDoc", len(marshals)))
-	if len(marshals) == 1 {
-		m := marshals[0]
-		doc := unwrapIface(m.Call.Args[0])
+	sites := c.goldenMarshalSites(sd, epbPkg)
+	c.S.Check(len(sites) == 1, "R6", "endorse.SignDoc:single marshal", c.pos(sd.Pos()), "the document is marshalled exactly once", fmt.Sprintf("%d marshals of the document in SignDoc", len(sites)))
+	if len(sites) == 1 {
+		ms := sites[0]
 		need := map[string]bool{"Cert": false, "CaBundle": false, "Timestamp": false}
-		okOrder := true
-		for _, b := range sd.Blocks {
-			for i, in := range b.Instrs {
-				st, ok := in.(*ssa.Store)
-				if !ok {
-					continue
-				}
-				fa, ok := st.Addr.(*ssa.FieldAddr)
-				if !ok || fa.X != doc {
-					continue
-				}
-				before := b.Dominates(m.Block()) && (b != m.Block() || i < indexIn(b, m))
-				if !before {
-					okOrder = false
-					c.S.Bad("R6", "endorse.SignDoc:store after marshal "+flow.FieldName(fa), c.pos(st.Pos()), "the document is modified after (or not on every path before) it was marshalled and signed")
-				} else if _, ok := need[flow.FieldName(fa)]; ok {
-					need[flow.FieldName(fa)] = true
+		// stores to the document's fields: in SignDoc relative to the site, and — when a helper marshals — in the helper
+		// relative to the marshal call
+		scan := func(fn *ssa.Function, doc ssa.Value, m *ssa.Call) {
+			for _, b := range fn.Blocks {
+				for i, in := range b.Instrs {
+					st, ok := in.(*ssa.Store)
+					if !ok {
+						continue
+					}
+					fa, ok := st.Addr.(*ssa.FieldAddr)
+					if !ok || fa.X != doc {
+						continue
+					}
+					before := b.Dominates(m.Block()) && (b != m.Block() || i < indexIn(b, m))
+					if !before {
+						c.S.Bad("R6", "endorse.SignDoc:store after marshal "+flow.FieldName(fa), c.pos(st.Pos()), "the document is modified after (or not on every path before) it was marshalled and signed")
+					} else if _, ok := need[flow.FieldName(fa)]; ok {
+						need[flow.FieldName(fa)] = true
+					}
 				}
 			}
 		}
-		for k, v := range need {
-			c.S.Check(v, "R6", "endorse.SignDoc:"+k+" before marshal", c.pos(m.Pos()), k+" filled in on every path before marshalling", k+" is not filled in before the document is marshalled")
+		if ms.helper == nil {
+			scan(sd, unwrapIface(ms.inner.Call.Args[0]), ms.inner)
+		} else {
+			scan(ms.helper, ms.helper.Params[ms.docParam], ms.inner)
+			if ms.docParam < len(ms.site.Call.Args) {
+				scan(sd, ms.site.Call.Args[ms.docParam], ms.site)
+			}
 		}
-		_ = okOrder
+		var ks []string
+		for k := range need {
+			ks = append(ks, k)
+		}
+		sort.Strings(ks)
+		for _, k := range ks {
+			c.S.Check(need[k], "R6", "endorse.SignDoc:"+k+" before marshal", c.pos(ms.inner.Pos()), k+" filled in on every path before marshalling", k+" is not filled in before the document is marshalled")
+		}
 	}
 }
 
